@@ -61,6 +61,8 @@ inductive Fields where
   | variant (name : String) (sel : String) (val : Nat) (t : Ty) (rest : Fields)
 end
 
+deriving instance DecidableEq for Ty, Fields
+
 /-- Values. `absent` is the nil pointer of an unchosen variant field. A struct value lists one value
 per field, in field order. -/
 inductive Val where
@@ -331,3 +333,10 @@ def Val.payloadL : List Val → Nat
 end
 
 end Tls
+
+/-- `DecidableEq` for results, so that closed examples can be checked with `decide`. -/
+instance Tls.decEqExcept {ε α : Type} [DecidableEq ε] [DecidableEq α] : DecidableEq (Except ε α)
+  | .ok a, .ok b => if h : a = b then isTrue (h ▸ rfl) else isFalse (fun h' => h (Except.ok.inj h'))
+  | .error a, .error b => if h : a = b then isTrue (h ▸ rfl) else isFalse (fun h' => h (Except.error.inj h'))
+  | .ok _, .error _ => isFalse (fun h => nomatch h)
+  | .error _, .ok _ => isFalse (fun h => nomatch h)
